@@ -629,6 +629,22 @@ def builtin_method(ex, st, obj, mname, args, kwargs, cx, node, k):
                 c2 = z3.Lambda([x_], z3.Or(z3.Select(content, x_), z3.Select(oc, x_)))
                 return k(st.setheap(key_, z3.Store(arr, obj.z, c2)), NONE_SV)
             raise VCError('set.update argument outside subset')
+        if mname in ('union', 'intersection', 'difference') and len(args) == 1 and args[0].ty.kind == 'opt' \
+                and args[0].ty.args[0].kind == 'set':
+            # an optional set used as a set: None here would be a TypeError
+            ex.oblige(st, ex.site(cx, node, 'no-TypeError'), args[0].z != 0, kind='absence',
+                      info=dict(why=f'set.{mname}(None) raises TypeError'))
+            args = [SV(args[0].ty.args[0], args[0].z)]
+        if mname in ('union', 'intersection', 'difference') and len(args) == 1 and args[0].ty.kind == 'set' \
+                and T.sort_of(args[0].ty.args[0]) == T.sort_of(ety):
+            # a NEW set whose membership is the pointwise combination; both operands are left as they are
+            oc = ex.set_content(st, args[0])
+            x_ = z3.Const('x!sop', T.sort_of(ety))
+            a_, b_ = z3.Select(content, x_), z3.Select(oc, x_)
+            body = {'union': z3.Or(a_, b_), 'intersection': z3.And(a_, b_), 'difference': z3.And(a_, z3.Not(b_))}[mname]
+            s2, r = ex.alloc(st, t, 'set' + mname)
+            arr = ex.heap_get(s2, key_, srt)
+            return k(s2.setheap(key_, z3.Store(arr, r.z, z3.Lambda([x_], body))), r)
         if mname == 'copy':
             s2, r = ex.alloc(st, t, 'setcpy')
             arr = ex.heap_get(s2, key_, srt)
